@@ -250,7 +250,7 @@ func ruleALLOCRECORDED(p *Program, rep *Report) {
 				}
 				key := funcName(outer) + "|" + callee.Name()
 				rep.Analysed(funcName(outer))
-				if journals(outer) {
+				if v.allocationJournaled(c, 0) {
 					rep.OK("ALLOC-RECORDED", key, p.InstrPos(ins), "allocation journaled in txAllocArea.allocated/new")
 				} else {
 					rep.Bad("ALLOC-RECORDED", key, p.InstrPos(ins), "pages taken from a freelist by "+callee.Name()+" are not recorded in txAllocArea.allocated/new: rollback cannot return them and ownership is lost")
@@ -1052,4 +1052,119 @@ func rulePRECOMMITNOALIAS(p *Program, rep *Report) {
 			rep.OK("PRECOMMIT-NO-ALIAS", "mergeRegionLists|may-return-argument", p.Pos(merge.Pos()), "may return an argument unchanged; call sites checked for aliasing")
 		}
 	}
+}
+
+// derivedFrom: forward closure of the values computed from v inside its function (fields, conversions,
+// copies through locals).
+func forwardDerived(v ssa.Value) map[ssa.Value]bool {
+	d := map[ssa.Value]bool{v: true}
+	work := []ssa.Value{v}
+	add := func(x ssa.Value) {
+		if x != nil && !d[x] {
+			d[x] = true
+			work = append(work, x)
+		}
+	}
+	for len(work) > 0 {
+		x := work[len(work)-1]
+		work = work[:len(work)-1]
+		refs := x.Referrers()
+		if refs == nil {
+			continue
+		}
+		for _, r := range *refs {
+			switch y := r.(type) {
+			case *ssa.Field:
+				add(y)
+			case *ssa.FieldAddr:
+				add(y)
+			case *ssa.Extract:
+				add(y)
+			case *ssa.Convert:
+				add(y)
+			case *ssa.ChangeType:
+				add(y)
+			case *ssa.Phi:
+				add(y)
+			case *ssa.UnOp:
+				add(y)
+			case *ssa.IndexAddr:
+				add(y)
+			case *ssa.Store:
+				if d[y.Val] {
+					// the cell now holds a derived value: its address (and loads from it) are derived
+					add(y.Addr)
+				}
+			}
+		}
+	}
+	return d
+}
+
+// journalsValue: inside its function, some value derived from v is recorded in txAllocArea.allocated/new —
+// x.allocated.Add(derived), derived.EachPage(x.new.Add), or a helper called with a derived argument does.
+func (v *allocVocab) journalsValue(val ssa.Value, depth int) bool {
+	if depth > 2 {
+		return false
+	}
+	d := forwardDerived(val)
+	isJournalAddr := func(x ssa.Value) bool {
+		fa, ok := x.(*ssa.FieldAddr)
+		return ok && (fieldOfAddr(fa) == v.fAllocated || fieldOfAddr(fa) == v.fNew)
+	}
+	for x := range d {
+		refs := x.Referrers()
+		if refs == nil {
+			continue
+		}
+		for _, r := range *refs {
+			c, ok := r.(ssa.CallInstruction)
+			if !ok {
+				continue
+			}
+			args := c.Common().Args
+			sc := c.Common().StaticCallee()
+			// x.allocated.Add(derived)
+			if sc == v.setAdd && len(args) == 2 && isJournalAddr(args[0]) && d[args[1]] {
+				return true
+			}
+			// derived.EachPage(area.new.Add) — a bound Add of a journal set handed to a call on the derived value
+			for _, a := range args {
+				if mc, ok := a.(*ssa.MakeClosure); ok {
+					if g, ok := mc.Fn.(*ssa.Function); ok && strings.HasSuffix(g.Name(), "Add$bound") && len(mc.Bindings) == 1 && isJournalAddr(mc.Bindings[0]) {
+						return true
+					}
+				}
+			}
+			// a repository helper receives the derived value
+			if sc != nil && v.p.InRepo(sc) && len(sc.Blocks) > 0 && sc != v.setAdd {
+				for i, a := range args {
+					if d[a] && i < len(sc.Params) && v.journalsValue(sc.Params[i], depth+1) {
+						return true
+					}
+				}
+			}
+		}
+	}
+	return false
+}
+
+// allocationJournaled: the pages a freelist allocation primitive hands out are recorded: either its result
+// flows into the journal, or the callback it is given records the region it receives.
+func (v *allocVocab) allocationJournaled(c ssa.CallInstruction, depth int) bool {
+	if val := c.Value(); val != nil && v.journalsValue(val, depth) {
+		return true
+	}
+	for _, a := range c.Common().Args {
+		if mc, ok := a.(*ssa.MakeClosure); ok {
+			if g, ok := mc.Fn.(*ssa.Function); ok {
+				for _, par := range g.Params {
+					if v.journalsValue(par, depth) {
+						return true
+					}
+				}
+			}
+		}
+	}
+	return false
 }
